@@ -180,3 +180,65 @@ def c18_r2(ctx):
                                          u.where, restore=a.where, shortcut_site=wit.where)
     if not ctx.violations:
         ctx.ok()
+
+
+@rule("C18.R3", floor=1)
+def c18_r3(ctx):
+    """A file that replaced another one gets a new remembered state: in the function that
+    finishes a rule without running its command, every iteration that does not establish
+    `this target's resolution is AlreadyCorrect` stores a fresh FileState for the target before
+    the next iteration (or leaves with an error) - the store may not depend on anything else,
+    in particular not on the two files' modified times being different."""
+    P = ctx.P
+    n = 0
+    for f in prod(P):
+        ac = _ac_guard_edges(f)
+        if not ac:
+            continue
+        stores = []
+        for b in f.blocks:
+            if b["cleanup"]:
+                continue
+            for i, st in enumerate(b["stmts"]):
+                if st["k"] == "assign" and st["place"]["proj"]:
+                    fl = [e for e in st["place"]["proj"] if e["k"] == "field"]
+                    if fl and fl[-1].get("name") == "file_state" and "blob::FileState" in fl[-1].get("ty", ""):
+                        stores.append(b["i"])
+        if not stores:
+            continue
+        lps = [lp for lp in f.loops() if any(s in lp["body"] for s in stores)]
+        if not lps:
+            continue
+        lp = min(lps, key=lambda l: len(l["body"]))
+        n += 1
+        ctx.saw(f)
+        ctx.inst("state refresh in %s" % f.id, f.where(stores[0]))
+        # an iteration = from the Some edge of the iterator to the header again
+        start = [d for (s_, d) in [lp["some"]]] if lp.get("some") else [x for x in f.succ[lp["next"].bb]]
+        r = f.reach(start, avoid_blocks=stores, avoid_edges=_closed(f, ac))
+        if lp["header"] in r:
+            ctx.viol((f.id, "replaced-file-keeps-old-state"), "an iteration can finish without storing a fresh file state although the target was not established to be AlreadyCorrect (e.g. when the restored file has the same modified time as the one it replaced): the table keeps the old file's hash next to that modified time, and the shortcut returns it for the new file", f.where(stores[0]))
+        else:
+            ctx.ok()
+    ctx.need(n, "a function refreshing file states under an AlreadyCorrect test")
+
+
+def _closed(f, edges):
+    """edges plus the true/false edges of bool flags implied by them (as dominated_by_edges does)."""
+    out = set(edges)
+    flags = f._flag_switches()
+    for _ in range(4):
+        grew = False
+        for l, (sets, switches) in flags.items():
+            for val in (True, False):
+                add = set()
+                for info in switches:
+                    add |= f._bool_edges(info, val)
+                if not sets[val] or add <= out:
+                    continue
+                if all(b not in f.reach([0], avoid_edges=out) for b in sets[val]):
+                    out |= add
+                    grew = True
+        if not grew:
+            break
+    return out
